@@ -277,3 +277,33 @@ Example C15_ex_registry_roundtrip :
     = Ok {| h_T := bs "varchar"; h_attrs := [{| a_K := bs "size"; a_V := AInt 255 |}] |} /\
   hcl_eval [s] (HIdent (bs "vc")) = Err.
 Proof. vm_compute. repeat split; reflexivity. Qed.
+
+(** ... and with optional trailing arguments: the type carries any prefix vs of the function arguments
+    that covers the required ones (what Convert produces, up to its zero-skipping), no argument is
+    variadic. Subsumes the positional case. Still PARTIAL for the same reasons (variadic argument,
+    `unsigned`, Convert, Type). *)
+Theorem C15_registry_roundtrip_prefix_partial :
+  forall reg fmt spec fargs vs,
+    nodup_b (map ts_T reg) = true -> nodup_b (map ts_name reg) = true -> In spec reg ->
+    ts_fmt_custom spec = false ->
+    type_func_args spec = fargs ->
+    forallb (fun p => negb (kind_eqb (ta_kind p) KSlice)) fargs = true ->
+    nodup_b (map ta_name fargs) = true ->
+    vs <> [] ->
+    (length (filter ta_required fargs) <= length vs)%nat -> (length vs <= length fargs)%nat ->
+    forallb (fun '(p, v) => aval_kind_ok (ta_kind p) v) (combine (filter ta_required fargs) vs) = true ->
+    forallb RegistryRoundtrip.not_list vs = true ->
+    let typ := {| h_T := ts_T spec; h_attrs := RegistryRoundtrip.zip_attrs fargs vs |} in
+    hcl_type reg fmt typ = Ok (PExpr (HCall (ts_name spec) vs)) /\
+    hcl_eval reg (HCall (ts_name spec) vs) = Ok typ.
+Proof. exact RegistryRoundtrip.prefix_roundtrip. Qed.
+Print Assumptions C15_registry_roundtrip_prefix_partial.
+
+Example C15_ex_registry_roundtrip_prefix :
+  let s := mkSpec "decimal" "decimal" [mkAttr "precision" KInt false; mkAttr "scale" KInt false] "" false false false in
+  hcl_type [s] (fun _ _ => Err) {| h_T := bs "decimal"; h_attrs := [{| a_K := bs "precision"; a_V := AInt 10 |}] |}
+    = Ok (PExpr (HCall (bs "decimal") [AInt 10])) /\
+  hcl_eval [s] (HCall (bs "decimal") [AInt 10])
+    = Ok {| h_T := bs "decimal"; h_attrs := [{| a_K := bs "precision"; a_V := AInt 10 |}] |} /\
+  hcl_eval [s] (HCall (bs "decimal") [AInt 10; AInt 2; AInt 3]) = Err.
+Proof. vm_compute. repeat split; reflexivity. Qed.
